@@ -421,10 +421,14 @@ class DemoStorage(ConflictResolvingStorage):
             self._transaction = transaction
             self._stored_oids = set()
             del self._resolved[:]
-            if not a and 'tid' not in k:
+            if (a[0] if a else k.get('tid')) is None:
                 # tids must keep increasing across the two layers, even
                 # when the base's last transaction is ahead of the clock
-                k['tid'] = ZODB.utils.newTid(self.lastTransaction())
+                tid = ZODB.utils.newTid(self.lastTransaction())
+                if a:
+                    a = (tid,) + a[1:]
+                else:
+                    k['tid'] = tid
             self.changes.tpc_begin(transaction, *a, **k)
 
     def tpc_vote(self, *a, **k):
